@@ -188,14 +188,26 @@ def one_case(draw, uid):
     later = []
     for stmt, uses, form in chosen:
         forms.add(form)
-        place = draw(st.sampled_from(["top", "top", "top", "function", "after-def", "if", "try", "unused", "twice", "after-own-def", "rebound"]))
+        place = draw(st.sampled_from(["top", "top", "top", "function", "after-def", "if", "try", "unused", "twice", "after-own-def", "rebound", "own-binding"]))
         if form == "builtin-name":
             place = draw(st.sampled_from(["function", "function", "top"]))
         if "try:" in stmt:
             place = "top" if place not in ("after-def",) else place
         used = draw(st.lists(st.sampled_from(uses), min_size=1, max_size=len(uses), unique=True))
         use_lines = [f"RESULT.append({u})" for u in used]
-        if place == "rebound" and stmt.startswith("import ") and " as " not in stmt and "," not in stmt and "\n" not in stmt:
+        simple = "\n" not in stmt and "," not in stmt and "*" not in stmt
+        bound_name = None
+        if simple and stmt.startswith("import "):
+            bound_name = stmt.split(" as ")[1] if " as " in stmt else stmt.split()[1].split(".")[0]
+        elif simple and stmt.startswith("from ") and not stmt.startswith("from ."):
+            bound_name = stmt.split(" as ")[1] if " as " in stmt else stmt.split(" import ")[1]
+        if place == "own-binding" and bound_name and bound_name.isidentifier() and all(u == bound_name or u.startswith(bound_name + ".") for u in used):
+            # a function that imports lazily and binds the same name itself as well (a parameter)
+            k = len(lines)
+            lines += [f"def fn_{k}({bound_name}=None):", f"    if {bound_name} is None:", f"        {stmt}", f"    return ({', '.join(used)},)", ""]
+            later.append(f"RESULT.extend(fn_{k}())")
+            forms.add("inside-function-that-binds-the-name-itself")
+        elif place == "rebound" and stmt.startswith("import ") and " as " not in stmt and "," not in stmt and "\n" not in stmt:
             # the same plain import twice, with the name bound to something else in between
             bound = stmt.split()[1].split(".")[0]
             lines += [stmt, f"{bound} = None", f"RESULT.append({bound})", stmt]
@@ -334,8 +346,11 @@ def evaluate(case, info=None):
         files = "\n".join(f"--- {k}\n{v}" for k, v in sorted(case["files"].items()))
         fails.append({"bucket": bucket, "case": case, "detail": f"stage {case['stage'][1]} tree {case['tree']}\n{detail}\n--- client ({case['client_path']})\n{case['client']}\n{files}"})
 
+    kept_roots = []
     if case.get("after"):
-        evaluate(dict(case["after"]), {})  # the earlier call: same names, other layout; its own verdict is not used here
+        # the earlier call: same names, other layout (its own verdict is not used here); like another project that the
+        # same process formatted before, its files are still on disk while the later call runs
+        evaluate(dict(case["after"], _keep_root=kept_roots), {})
     root = tempfile.mkdtemp(prefix="vf_c18_")
     cwd = os.getcwd()
     saved_path = list(sys.path)
@@ -405,7 +420,12 @@ def evaluate(case, info=None):
         for name in [n for n in sys.modules if n.startswith(case["prefix"])]:
             sys.modules.pop(name, None)
         importlib.invalidate_caches()
-        shutil.rmtree(root, ignore_errors=True)
+        if case.get("_keep_root") is not None:
+            case["_keep_root"].append(root)  # the tree of an earlier call stays on disk while the later call runs
+        else:
+            shutil.rmtree(root, ignore_errors=True)
+        for kept in kept_roots:
+            shutil.rmtree(kept, ignore_errors=True)
 
 
 def same_object(x, y, modname):
